@@ -679,9 +679,17 @@ class C03(verif.Spec):
                 c = ["note fault parity"] + stream_ops(f) + d
                 cases.append(self.tag(c, "parity", tx))
             else:
+                hit = set()
                 for _ in range(rng.choice([2, 6, 20])):
                     i = rng.randrange(len(pk))
                     pos = rng.randrange(42)
+                    if pos >= 2 and (i, pos) in hit:       # any packet kind: header text and AIT titles are parity bytes too;
+                        # double errors in Hamming bytes have their own generators (addr2, hdr2, unit2)
+                        # a second error in the same odd-parity byte of a row defeats the parity bit: another character
+                        # with valid parity arrives, which no decoder can tell from a transmitted one - not claimed by the
+                        # property (thorough-tier false alarm at seed 2: byte 38 of a row hit by bits 0 and 7)
+                        continue
+                    hit.add((i, pos))
                     f[i] = (T.flip(f[i][0], pos, rng.randrange(8)), f[i][1])
                 c = ["note fault burst"] + stream_ops(f) + d
                 cases.append(self.tag(c, "burst", tx))
